@@ -71,47 +71,7 @@ fn policy(k: u8) -> RegexManagerDiscardPolicy {
     }
 }
 
-type Answers = Vec<String>;
-
-fn engine_answers(e: &Engine, c: &FullCase, only: Option<usize>) -> Answers {
-    let mut out = vec![];
-    let mut k = 0;
-    let mut want = |k: &mut usize| {
-        let r = only.map(|o| o == *k).unwrap_or(true);
-        *k += 1;
-        r
-    };
-    for r in &c.reqs {
-        if !want(&mut k) {
-            continue;
-        }
-        if let Some(q) = mk_request(r) {
-            let v = Verdict::of(&e.check_network_request(&q));
-            let csp = e.get_csp_directives(&q).map(|s| split_csp(&s, &[]));
-            out.push(format!("net {:?} -> {:?} csp {:?}", r, v, csp));
-        }
-    }
-    for p in &c.pages {
-        if !want(&mut k) {
-            continue;
-        }
-        let u = e.url_cosmetic_resources(p);
-        let mut hs: Vec<_> = u.hide_selectors.iter().cloned().collect();
-        hs.sort();
-        let mut pa: Vec<_> = u.procedural_actions.iter().cloned().collect();
-        pa.sort();
-        let mut ex: Vec<_> = u.exceptions.iter().cloned().collect();
-        ex.sort();
-        // scriptlets are emitted in hash-map order: compare as a sorted multiset of lines
-        let mut js: Vec<&str> = u.injected_script.lines().collect();
-        js.sort();
-        out.push(format!("page {} -> hide {:?} proc {:?} exc {:?} gh {} js {:?}", p, hs, pa, ex, u.generichide, js));
-        let mut sel = e.hidden_class_id_selectors(&c.classes, &c.ids, &u.exceptions);
-        sel.sort();
-        out.push(format!("classid {} -> {:?}", p, sel));
-    }
-    out
-}
+use crate::eng::{engine_answers, Answers};
 
 fn redirect_tolerant_eq(a: &Answers, b: &Answers) -> bool {
     a == b
